@@ -258,6 +258,14 @@ impl Res {
             (a, b) => a == b,
         }
     }
+    /// like `same`, but an Err must also carry the same message (used where the engine is compared
+    /// with ITSELF: whatever an error says is then part of the result)
+    pub fn same_exact(&self, other: &Res) -> bool {
+        match (self, other) {
+            (Res::Many(a), Res::Many(b)) => a.len() == b.len() && a.iter().zip(b).all(|(x, y)| x.same_exact(y)),
+            (a, b) => a == b,
+        }
+    }
     pub fn is_panic(&self) -> bool {
         match self {
             Res::P(_) => true,
